@@ -372,7 +372,14 @@ TIMING_ENTER = {
     '    self._parent = v0\n'
     "thread_local.thread_local_set('__timing_context__', self)\n"
     'self.start()\n'
-    'return self': 'ok',
+    'return self': 'keepsStaleParent',       # finding F60: a re-used TimeIt restores the parent of its first use
+    "v0 = thread_local.thread_local_get('__timing_context__', None)\n"
+    'self._parent = v0\n'
+    'if v0 is not None:\n'
+    '    v0.add(self)\n'
+    "thread_local.thread_local_set('__timing_context__', self)\n"
+    'self.start()\n'
+    'return self': 'recordsParent',
 }
 TIMING_EXIT = {
     'del v0, v2\n'
@@ -631,6 +638,14 @@ def extract_stacks(mgrs, facts):
   rule = expect_shape(F_VIEWS, fn, VIEW_OPTIONS, 'view_options')
   mgrs.append(_mgr('view_options', 'stack:' + rule, const_str(consts, ast.Name('_TLS_KEY_VIEW_OPTIONS', ast.Load()), F_VIEWS),
                    None, None, 'threadLocal', F_VIEWS, fn.lineno, {'getter': 'value yielded by view_options()'}))
+  vf = common.find_func(tree, 'view')
+  withs = [n for n in ast.walk(vf) if isinstance(n, ast.With)]
+  if not (len(withs) == 1 and len(withs[0].items) == 1
+          and ast.unparse(withs[0].items[0].context_expr) == 'view_options(**kwargs)'):
+    raise TranslatorError(F_VIEWS + ': view() no longer renders inside `with view_options(**kwargs)`')
+  mgrs.append(_mgr('view', 'stack:' + rule, const_str(consts, ast.Name('_TLS_KEY_VIEW_OPTIONS', ast.Load()), F_VIEWS),
+                   None, None, 'threadLocal', F_VIEWS, vf.lineno,
+                   {'getter': 'value yielded by view_options()', 'shares_cell_with': 'view_options'}))
   # preset_args
   _, tree = common.parse_source(F_CALL)
   consts = module_consts(tree)
@@ -691,10 +706,11 @@ def extract_stacks(mgrs, facts):
                    storage, F_JSON, fn.lineno, {'getter': 'JSONConvertible.class_from_typename'}))
 
 
-def extract_timing(mgrs):
+def extract_timing(mgrs, facts):
   _, tree = common.parse_source(F_TIMING)
   cls = common.find_class(tree, 'TimeIt')
-  expect_shape(F_TIMING, common.find_func(cls, '__enter__'), TIMING_ENTER, 'TimeIt.__enter__')
+  facts['timingEnterShape'] = expect_shape(F_TIMING, common.find_func(cls, '__enter__'), TIMING_ENTER,
+                                           'TimeIt.__enter__')
   ex = common.find_func(cls, '__exit__')
   expect_shape(F_TIMING, ex, TIMING_EXIT, 'TimeIt.__exit__')
   mgrs.append(_mgr('timeit', 'enterExit', '__timing_context__', None, None, 'threadLocal', F_TIMING, ex.lineno,
@@ -801,7 +817,7 @@ def run():
   extract_permission(mgrs, facts)
   extract_contextual(mgrs, facts)
   extract_stacks(mgrs, facts)
-  extract_timing(mgrs)
+  extract_timing(mgrs, facts)
   extract_dyn(mgrs, facts)
   extract_functor(mgrs, facts)
   found = close_world(mgrs)
@@ -831,6 +847,10 @@ def run():
   L.append('inductive DeleteRule where | deleteIfNoOuter | deleteAlways | restoreOrDelete deriving DecidableEq, Repr')
   L.append('def permissionShape : DeleteRule := .%s' % facts['permissionShape'])
   L.append('def frameScopeShape : DeleteRule := .%s' % facts['frameScopeShape'])
+  L.append('')
+  L.append('/-- `TimeIt.__enter__`: is the context found on entry recorded on every entry (also `None`)? -/')
+  L.append('inductive ParentRule where | recordsParent | keepsStaleParent deriving DecidableEq, Repr')
+  L.append('def timingEnterShape : ParentRule := .%s' % facts['timingEnterShape'])
   L.append('')
   L.append('end Pg.C17')
   L.append('')
